@@ -71,6 +71,7 @@ def build(spec):
     fam, rows = spec['fam'], spec['rows']
     cls = getattr(sf, spec['cls'])
     name = spec.get('name')
+    name = tuple(name) if isinstance(name, list) else name  # JSON round trip of a replay record
     if fam == 'Frame':
         kinds = spec['kinds']
         cols = [col(k, rows) for k in kinds]
@@ -1133,8 +1134,9 @@ def catalogue(spec):
     import inspect
     cls = getattr(sf, spec['cls'])
     fam = spec['fam']
-    if cls in _CATALOGUE:
-        return _CATALOGUE[cls]
+    numeric = bool(spec['kinds']) and all(k in 'ifbu' for k in spec['kinds'])
+    if (cls, numeric) in _CATALOGUE:
+        return _CATALOGUE[(cls, numeric)]
     o = []
     tabled = {'Frame': ops_frame, 'Series': ops_series}.get(fam, lambda: ops_index(fam))()
     for n in sorted(dir(cls)):
@@ -1155,13 +1157,18 @@ def catalogue(spec):
     o.extend(tabled)
     o.extend(ops_common())
     o.extend(ops_via(fam))
+    # NumPy's object-dtype matmul loop corrupts memory when an element product raises (reproduced with plain ndarrays:
+    # np.matmul(a.T, a) for a = np.array([[4, 'b'], [-2, 'aa'], [1, '']], dtype=object) segfaults after a few calls), so matrix
+    # multiplication is only exercised where every operand is numeric
+    mm = ('__matmul__', '__rmatmul__', '__imatmul__')
+    o = [x for x in o if x[0] not in mm or (numeric and x[1] in ('scalar', 'rscalar', 'self', 'twin', 'array', 'T', ''))]
     if not cls.STATIC:  # growth through __setitem__ is the legitimate mutator of FrameGO (covered by C09)
         o = [x for x in o if x[0] not in ('__setitem__',)]
     keys = set()
     for r, v, _ in o:
         assert (r, v) not in keys, (r, v)
         keys.add((r, v))
-    _CATALOGUE[cls] = o
+    _CATALOGUE[(cls, numeric)] = o
     return o
 
 
